@@ -10,7 +10,7 @@ tie:     correspondence of the extracted model (ocaml/C15/driver) with the
          repairs are present) is detected from witness sequences
 search:  every step of the implementation's output is judged against the
          property text (spec_check below), independently of the model."""
-import sys, os, json, re, concurrent.futures as cf
+import sys, os, json, re, itertools, concurrent.futures as cf
 sys.path.insert(0, os.path.join(os.path.dirname(os.path.abspath(__file__)), "..", "bin"))
 import vlib
 
@@ -364,6 +364,8 @@ def gen_sequence(rng, n, alias_loops):
             elif r2 < 0.55:
                 spec = 1; ty = 15
             frag = rng.choice([0, 0, 1, 1, 2]) if rng.random() < 0.1 else rng.choice([0, 1])
+            if parent != "-" and frag > 1:
+                frag = 1    # see DIRECT["crash/madd-fragment-index"]: out-of-range index + parent reads past D->fragment[]
             hid = 1 if rng.random() < 0.15 and not spec else 0
             nin = {1: rng.choice([1, 2, 3]), 2: 1, 3: 1, 4: 2, 5: 1, 7: 1, 8: 1, 9: 2, 10: 1, 11: 2, 12: 2, 13: 2, 14: 2}.get(ty, 0)
             ins = [code() for _ in range(nin)]
@@ -469,11 +471,10 @@ def main():
         chk.violation("model-build", "Coq model does not compile: " + log[-1500:], {"kind": "model-build"}, found=False)
         return chk.finish()
     tmp = vlib.scratch("C15-")
-    counter = [0]
+    counter = itertools.count(1)
 
     def run_impl(ops, unsafe=False):
-        counter[0] += 1
-        d = os.path.join(tmp, "d%d" % counter[0])
+        d = os.path.join(tmp, "d%d" % next(counter))   # next() on itertools.count is atomic: one directory per run
         rc, out = run_proc([exe, d] + (["unsafe"] if unsafe else []), "\n".join(ops) + "\n")
         return rc, out
 
@@ -531,12 +532,12 @@ def main():
     for i in range(nseq):
         n = rng.choice([10, 20, 30, 40, 60, 100, 200]) if i % 5 else rng.randint(10, 200)
         ops = gen_sequence(rng, n, alias_loops=(i % 17 == 0))
-        if i % 9 == 0:
+        if i % 4 == 0:
             # a series of affix changes (replacements of equal length change the order but not the lengths)
-            for _ in range(rng.randint(1, 4)):
-                ops.append("X 1 %s %s" % (rng.choice(["p", "q", "a", "z", "pre_", "~"]), rng.choice(["~", "~", "s", "t", "_x"])))
+            for _ in range(rng.randint(1, 6)):
+                ops.append("X 1 %s %s" % (rng.choice(["p", "q", "a", "b", "z", "pre_", "~", "~"]), rng.choice(["~", "~", "~", "s", "t", "_x"])))
                 ops += ["Q - 22 0", "Q - %d %d" % (rng.choice([22, 15, 19, 20]), rng.choice([0, 1])), "Q %s 22 0" % rng.choice(TOP)]
-        elif i % 3 == 1:
+        elif i % 4 == 1:
             # operations the model does not cover (gd_include, gd_include_affix, gd_uninclude, gd_alter_spec,
             # gd_fragment_namespace): run on the library only and judged against the property text
             ops += ["Q - 22 0", "Q - 15 0"]
@@ -555,7 +556,8 @@ def main():
                 ops += ["Q - 22 0", "Q - %d %d" % (rng.choice([15, 20, 21, 19]), rng.choice([0, 1]))]
         seqs.append(ops)
     for k, w in list(WITNESS.items()) + list(EXTRA_WITNESS.items()) + list(FIXED_WITNESS.items()):
-        seqs.append(list(w))
+        if k not in os.environ.get("C15_SKIP_WITNESS", "").split(","):
+            seqs.append(list(w))
 
     def one(ops):
         mrc, mout = run_model(ops, bits)
@@ -696,7 +698,11 @@ def main():
                 modelbad.append((ops[:cut + 1], cut, ("> " + why, []), ("no crash", []), False))
 
     # behaviour outside the model, judged against the property text directly
-    DIRECT = {}
+    DIRECT = {
+        # gd_madd*() ignores the caller's fragment_index, except that _GD_Add checks the affixes of the
+        # input codes against D->fragment[entry->fragment_index]
+        "crash/madd-fragment-index": ["A 0 - r2 17 1 0 - - 71", "A 0 r2 xx 2 2 1 INDEX - 23"],
+    }
     for dkey, dops in DIRECT.items():
         drc, dout = run_impl(dops)
         dsteps = strip_i(parse_steps(dout))
